@@ -62,9 +62,9 @@ type bArgs struct {
 	tmsi       string
 	r          *rand.Rand
 	morePsis   []int64 // PDU session ids inside an optional list argument
-	badArg     string // which argument is out of range ("" = none)
-	extName    bool   // the name is longer than the root of its extensible SIZE(1..150,...): carried exactly or refused
-	srcAmfIsIE int64  // IE id that carries the amf argument (10, or 100 for PathSwitchRequest)
+	badArg     string  // which argument is out of range ("" = none)
+	extName    bool    // the name is longer than the root of its extensible SIZE(1..150,...): carried exactly or refused
+	srcAmfIsIE int64   // IE id that carries the amf argument (10, or 100 for PathSwitchRequest)
 }
 
 type bSpec struct {
@@ -91,6 +91,7 @@ func genVal[T any](a *bArgs) T {
 	v := g.Value(reflect.TypeOf(z), per.Params{})
 	return v.Interface().(T)
 }
+
 // optVal: an optional argument, present in one call out of two.
 func optVal[T any](a *bArgs) *T {
 	if a.r.Intn(2) == 0 {
